@@ -853,8 +853,14 @@ def int_to_double_term(v):
     return z3.fpSignedToFP(RNE, z3.Int2BV(e, 64), F64)
 
 
-def double_to_int_term(f):
-    return _d2i(f)
+def double_to_int(f):
+    """int(float) for a finite double: truncation toward zero.  Stated bound: |f| < 2**63 (beyond is outside the claim)."""
+    lim = z3.FPVal(float(TWO63), F64)
+    CUR.assume(z3.And(z3.fpLT(f, lim), z3.fpGT(f, z3.fpNeg(lim))))
+    b = z3.fpToSBV(z3.RTZ(), f, z3.BitVecSort(64))
+    r = SymInt(z3.BV2Int(b, True))
+    r.bv64 = b
+    return r
 
 
 def pytype_of(x):
